@@ -52,6 +52,8 @@ def render_model(schema, routes):
             body.append('    "Route %s."' % r['n'])
             body.append('    attrs')
             body.append('        style = "%s"' % r['style'])
+            if r.get('host', 'api') != 'api':
+                body.append('        host = "%s"' % r['host'])
             if r.get('scope'):
                 body.append('        scope = "%s"' % r['scope'].replace('\\', '\\\\').replace('\n', '\\n'))
             body.append('        auth = "%s"' % r.get('auth', 'user'))
